@@ -18,6 +18,7 @@ import (
 type C02Op struct {
 	K      string `json:"k"` // pub1 pub2 rel duprel filler ping
 	ID     uint16 `json:"id,omitempty"`
+	Dup    bool   `json:"dup,omitempty"` // pub2: the first copy of the exchange already carries DUP=1 (a retransmission whose original was lost)
 	Size   int    `json:"size,omitempty"`
 	Volume int    `json:"volume,omitempty"` // filler bytes
 }
@@ -94,7 +95,10 @@ func runC02(c C02Case) (res c02result) {
 				x = &exch{id: op.ID, msgno: msgno, topic: fmt.Sprintf("t/q2/%d", msgno), payload: payload(msgno, op.Size)}
 				open = append(open, x)
 				delete(completed, op.ID)
-				P.Send(&codec.Packet{Type: codec.PUBLISH, QoS: 2, PacketID: op.ID, Topic: []byte(x.topic), Payload: x.payload})
+				if op.Dup {
+					cls["first-copy-carries-dup"] = true
+				}
+				P.Send(&codec.Packet{Type: codec.PUBLISH, QoS: 2, Dup: op.Dup, PacketID: op.ID, Topic: []byte(x.topic), Payload: x.payload})
 			} else {
 				cls["dup-publish-before-pubrel"] = true
 				P.Send(&codec.Packet{Type: codec.PUBLISH, QoS: 2, Dup: true, PacketID: op.ID, Topic: []byte(x.topic), Payload: x.payload})
@@ -187,6 +191,9 @@ func runC02(c C02Case) (res c02result) {
 		if len(open) >= 2 {
 			cls["two-exchanges-open"] = true
 		}
+		if len(open) > 16 {
+			cls[">16-exchanges-open"] = true
+		}
 	}
 	for _, x := range b.Escaped() {
 		return c02result{Fail: x}
@@ -198,6 +205,18 @@ func genC02(t *rapid.T) C02Case {
 	var c C02Case
 	ids := []uint16{1, 2, 3, 7}
 	n := rapid.IntRange(3, 24).Draw(t, "nops")
+	if rapid.IntRange(0, 5).Draw(t, "bulk") == 0 {
+		// many exchanges open at once (the receiver's queue of 16 has to grow), after some completed ones
+		for i, k := 0, rapid.IntRange(0, 5).Draw(t, "completed-before"); i < k; i++ {
+			c.Ops = append(c.Ops, C02Op{K: "pub2", ID: uint16(100 + i), Size: 10}, C02Op{K: "rel"})
+		}
+		for i, k := 0, rapid.IntRange(15, 40).Draw(t, "bulk-open"); i < k; i++ {
+			c.Ops = append(c.Ops, C02Op{K: "pub2", ID: uint16(200 + i), Size: rapid.SampledFrom([]int{0, 10, 100}).Draw(t, "bsize")})
+		}
+		for i, k := 0, rapid.IntRange(10, 45).Draw(t, "bulk-rel"); i < k; i++ {
+			c.Ops = append(c.Ops, C02Op{K: "rel"})
+		}
+	}
 	for i := 0; i < n; i++ {
 		id := rapid.SampledFrom(ids).Draw(t, "id")
 		size := rapid.SampledFrom([]int{0, 1, 10, 100, 3000, 8100}).Draw(t, "size")
@@ -205,7 +224,7 @@ func genC02(t *rapid.T) C02Case {
 		case k < 2:
 			c.Ops = append(c.Ops, C02Op{K: "pub1", ID: id, Size: size})
 		case k < 6:
-			c.Ops = append(c.Ops, C02Op{K: "pub2", ID: id, Size: size})
+			c.Ops = append(c.Ops, C02Op{K: "pub2", ID: id, Size: size, Dup: rapid.IntRange(0, 4).Draw(t, "firstdup") == 0})
 		case k < 9:
 			c.Ops = append(c.Ops, C02Op{K: "rel"})
 		case k == 9:
